@@ -33,6 +33,7 @@ var table = map[string]map[string]string{
 	"math/rand": {"Intn": "Intn", "Int": "Int", "Int63": "Int63", "Int31n": "Int31n", "Int63n": "Int63n",
 		"Float64": "Float64", "Shuffle": "Shuffle", "Perm": "Perm"},
 	"runtime": {"GC": "GC"},
+	"net":     {"Pipe": "NetPipe"},
 	"sync":    {"Mutex": "Mutex", "RWMutex": "RWMutex", "WaitGroup": "WaitGroup"},
 	"sync/atomic": {"Bool": "AtomicBool", "Int64": "AtomicInt64", "Uint64": "AtomicUint64", "Int32": "AtomicInt32",
 		"Uint32": "AtomicUint32", "Value": "AtomicValue"},
@@ -50,7 +51,7 @@ func osApplies(rel string) bool {
 // a harmless reference that keeps the original import used
 var keepUse = map[string]string{
 	"time": "time.Nanosecond", "math/rand": "rand.Int", "runtime": "runtime.GOOS", "sync": "sync.NewCond",
-	"sync/atomic": "atomic.AddInt32", "os": "os.Getpid",
+	"sync/atomic": "atomic.AddInt32", "os": "os.Getpid", "net": "net.IPv4len",
 }
 
 type edit struct {
